@@ -201,3 +201,26 @@ PROPS['C19'] = dict(
     ],
     assumptions=["sessions share only the application data; vm.RegisterInputValidator, state.FlagDebugger registration and logging.LogWriter are set-up-time APIs not called while sessions are served"],
 )
+
+# Tie by regeneration: definitions translated from the CURRENT Go source by harness/cmd/gotrans (one Lean file per
+# function under lean/Vise/Gen/Fn, rewritten on every run) are proved EQUAL to the model's definitions in
+# lean/Vise/Tie/*.lean. The equations are obligations of the property whose theorems rest on these functions.
+TIE = {
+    'C01': (['Vise.Tie.Render'], "render.Sizer.Check (the comparison every size theorem rests on)"),
+    'C02': (['Vise.Tie.StateNav'], "state.State.Next / Previous / Sides / Top / Same (page index arithmetic and which lateral entries are on offer)"),
+    'C03': (['Vise.Tie.StateNav'], "state.State.Previous (IndexError on page 0, the 'no match' case of '<') and Next / Top / Same"),
+    'C04': (['Vise.Tie.StateNav'], "state.State.Next / Previous / Same / Top / Sides (page index, move counter, last move)"),
+    'C05': (['Vise.Tie.Cache'], "cache.Cache.checkCapacity and Levels"),
+    'C06': (['Vise.Tie.StateFlags'], "state.IsWriteableFlag and toByteSize"),
+    'C09': (['Vise.Tie.Cache'], "cache.Cache.checkCapacity and Levels"),
+    'C10': (['Vise.Tie.DbLock'], "db.DbBase.Safe and CheckPut (the write-protection tests)"),
+    'C11': (['Vise.Tie.DbKey'], "db.ToDbKey and db.DbBase.ToSessionKey (the storage key derivation the injectivity theorems are about)"),
+}
+for _p, (_mods, _what) in TIE.items():
+    PROPS[_p]['prop_modules'] = PROPS[_p]['prop_modules'] + _mods
+    PROPS[_p]['lean_targets'] = PROPS[_p]['lean_targets'] + _mods
+    PROPS[_p]['trusted'] = PROPS[_p]['trusted'] + [
+        "regenerated tie: " + _what + " are translated from the current Go source by harness/cmd/gotrans (a go/ast + go/types "
+        "translator for straight-line integer / byte-string code: uintN as Nat reduced mod 2^N after every operation, receiver fields as "
+        "parameters, assigned fields returned, logging dropped) and proved equal to the model's definitions (" + ', '.join(_mods) +
+        "); trusted here: the translator itself (about 600 lines) and Go's semantics of the translated fragment; the rest of the model is tied by sampling"]
